@@ -307,35 +307,54 @@ def rule_c(ctx: Context, R: Reporter, fin: FuncInfo, run: FuncInfo, wfn: FuncInf
         for n in cfg.stmt_nodes():
             if n.kind != "stmt" or not isinstance(n.stmt, ast.Assign) or not isinstance(n.stmt.targets[0], ast.Name) or n.stmt.targets[0].id not in (lo_p, hi_p) or not n.loops:
                 continue
-            conds = conds_holding_at(cfg, n)
-            mode = None
-            below = None
-            for (t, pol) in conds:
-                nt = is_none_test(t)
+            # truth table over the atoms of the path condition (local boolean names and conditional expressions inlined):
+            # under which (mode, metric-vs-target) combinations is this update executed?
+            import itertools
+
+            from ..util import bool_skeleton, path_facts
+
+            facts_ = path_facts(f.node, n, inline_bools=True)
+            atoms: List[ast.expr] = []
+            fns = [(bool_skeleton(e_, atoms), pol) for (e_, pol) in facts_]
+            kind = []  # per atom: ('mode', value of the atom that means ESS mode) / ('below', value that means metric < target) / None
+            for a_ in atoms:
+                k_ = None
+                nt = is_none_test(a_)
                 if nt is not None and "volume_variation" in norm_text(nt[0]):
-                    mode = "ess" if (nt[1] == pol) else "vv"
-                if isinstance(t, ast.Compare) and len(t.ops) == 1 and target_p in {x.id for x in ast.walk(t) if isinstance(x, ast.Name)}:
-                    l, r = t.left, t.comparators[0]
-                    opn = type(t.ops[0]).__name__
+                    k_ = ("mode", nt[1])  # atom true <=> (volume_variation is None) == nt[1]
+                elif isinstance(a_, ast.Compare) and len(a_.ops) == 1 and target_p in {x.id for x in ast.walk(a_) if isinstance(x, ast.Name)}:
+                    l, r = a_.left, a_.comparators[0]
+                    opn = type(a_.ops[0]).__name__
+                    lt = None
                     if isinstance(r, ast.Name) and r.id == target_p:
                         lt = {"Lt": True, "LtE": True, "Gt": False, "GtE": False}.get(opn)
                     elif isinstance(l, ast.Name) and l.id == target_p:
                         lt = {"Gt": True, "GtE": True, "Lt": False, "LtE": False}.get(opn)
-                    else:
-                        lt = None
                     if lt is not None:
-                        below = lt if pol else (not lt)
-            if mode is None or below is None:
+                        k_ = ("below", lt)
+                kind.append(k_)
+            if len(atoms) > 12 or not any(k_ and k_[0] == "mode" for k_ in kind) or not any(k_ and k_[0] == "below" for k_ in kind):
                 raise AnalysisError(f"C05.c: bracket update `{unparse(n.stmt)}` in {f.short} not under recognisable (mode, metric-vs-target) conditions")
-            n_tab += 1
-            want = {("ess", True): hi_p, ("ess", False): lo_p, ("vv", True): lo_p, ("vv", False): hi_p}[(mode, below)]
-            got = n.stmt.targets[0].id
-            R.check(
-                "C05.c", f"bisection moves the {'upper' if want == hi_p else 'lower'} end when mode={mode} and metric {'<' if below else '>='} target", got == want, f, n.stmt,
-                msg=f"{f.short}: in {'ESS' if mode == 'ess' else 'volume-variation'} mode with metric {'below' if below else 'at/above'} target the code moves `{got}` but the "
-                    f"declared monotonicity ({'ESS decreases' if mode == 'ess' else 'volume variation increases'} with beta) requires moving `{want}`",
-                key=f"bisect-table:{mode}:{'lt' if below else 'ge'}",
-            )
+            combos = set()
+            for val in itertools.product([False, True], repeat=len(atoms)):
+                if not all(fn_(val) == pol for (fn_, pol) in fns):
+                    continue
+                modes = {("ess" if (val[i] == k_[1]) else "vv") for i, k_ in enumerate(kind) if k_ and k_[0] == "mode"}
+                belows = {(val[i] == k_[1]) for i, k_ in enumerate(kind) if k_ and k_[0] == "below"}
+                if len(modes) == 1 and len(belows) == 1:
+                    combos.add((modes.pop(), belows.pop()))
+            if not combos:
+                raise AnalysisError(f"C05.c: bracket update `{unparse(n.stmt)}` in {f.short} is under an unsatisfiable or unreadable condition")
+            for (mode, below) in sorted(combos):
+                n_tab += 1
+                want = {("ess", True): hi_p, ("ess", False): lo_p, ("vv", True): lo_p, ("vv", False): hi_p}[(mode, below)]
+                got = n.stmt.targets[0].id
+                R.check(
+                    "C05.c", f"bisection moves the {'upper' if want == hi_p else 'lower'} end when mode={mode} and metric {'<' if below else '>='} target", got == want, f, n.stmt,
+                    msg=f"{f.short}: in {'ESS' if mode == 'ess' else 'volume-variation'} mode with metric {'below' if below else 'at/above'} target the code moves `{got}` but the "
+                        f"declared monotonicity ({'ESS decreases' if mode == 'ess' else 'volume variation increases'} with beta) requires moving `{want}`",
+                    key=f"bisect-table:{mode}:{'lt' if below else 'ge'}",
+                )
     R.floor("C05.c", "bracket updates in the two-mode bisection", n_tab, 4)
 
 
